@@ -168,11 +168,12 @@ class State:
 class Layout:
     """Engine instance: domains + source recognition + path enumeration."""
 
-    def __init__(self, domains, source_of, consts=None, max_paths=4096):
+    def __init__(self, domains, source_of, consts=None, max_paths=4096, helpers=None):
         self.domains = domains  # key -> [Case]
         self.source_of = source_of  # callable(node) -> key or None
         self.consts = consts or {}
         self.max_paths = max_paths
+        self.helpers = helpers or {}  # name -> FunctionDef of small module-level helpers that are analysed inline
 
     # ---------------------------------------------------------------- helpers
     def case_of(self, st: State, key):
@@ -207,6 +208,8 @@ class Layout:
 
     # ---------------------------------------------------------------- expressions
     def ev(self, st: State, node):
+        if isinstance(node, _ValNode):
+            return node.value
         key = self.source_of(node)
         if key is not None:
             return Src(key)
@@ -363,6 +366,8 @@ class Layout:
         name = U(node.func)
         f = node.func
         args = node.args
+        if name in self.helpers:
+            raise _NeedCall(node)
         if name == "str" and len(args) == 1:
             v = self.ev(st, args[0])
             if isinstance(v, (Src, AStr)):
@@ -466,6 +471,34 @@ class Layout:
                 f = left.single_field()
                 if f is not None and f.src in self.domains:
                     return self.test(st, ast.Compare(left=_SrcNode(f.src), ops=[op], comparators=[ast.Constant(right)]))
+        if isinstance(node, ast.Call) and isinstance(node.func, ast.Attribute) and node.func.attr == "has_attribute":
+            return [(st, True)]  # assumption: items the wwPDB always writes are present
+        if isinstance(node, ast.Call) and isinstance(node.func, ast.Attribute) and node.func.attr in ("isdigit", "isnumeric", "isdecimal") \
+                and not node.args:
+            base = self.ev(st, node.func.value)
+            key2 = base.key if isinstance(base, Src) else (base.single_field().src if isinstance(base, AStr) and base.single_field() else None)
+            if isinstance(base, str):
+                return [(st, getattr(base, node.func.attr)())]
+            if key2 in self.domains:
+                res = []
+                for c in self.case_of(st, key2):
+                    if c.numbers is not None:
+                        for val, nums in ((True, [x for x in c.numbers if str(x).isdigit()]), (False, [x for x in c.numbers if not str(x).isdigit()])):
+                            if nums:
+                                s2 = st.fork()
+                                s2.refine[key2] = Case(f"{c.label}[{'digits only' if val else 'signed/non-digit'}]", numbers=nums)
+                                res.append((s2, val))
+                    elif c.concrete:
+                        s2 = st.fork()
+                        s2.refine[key2] = c
+                        res.append((s2, isinstance(c.value, str) and c.value.isdigit()))
+                    else:
+                        for val in (True, False):
+                            s2 = st.fork()
+                            s2.refine[key2] = c
+                            res.append((s2, val))
+                return res
+            return [(st.fork(), True), (st.fork(), False)]
         key = self.source_of(node)
         if key is not None or isinstance(node, ast.Name):
             v = self.ev(st, node)
@@ -513,6 +546,24 @@ class Layout:
     def step(self, st: State, stmt, on_expr):
         try:
             return self._step(st, stmt, on_expr)
+        except _NeedCall as nc:
+            h = self.helpers[U(nc.node.func)]
+            params = [a.arg for a in h.args.args]
+            sub = State(env={}, refine=dict(st.refine))
+            for p_, a_ in zip(params, nc.node.args):
+                try:
+                    sub.env[p_] = self.ev(st, a_)
+                except _NeedCall:
+                    raise AnalysisError("layout: nested helper calls in one argument list")
+            body = [x for x in h.body if not (isinstance(x, ast.Expr) and isinstance(x.value, ast.Constant))]
+            out = []
+            for fin in self.run(body, sub, on_expr):
+                s2 = st.fork()
+                s2.refine = dict(fin.refine)
+                s2.events = st.events + [e for e in fin.events if e not in st.events]
+                stmt2 = _replace(stmt, nc.node, _ValNode(fin.result if fin.done else None))
+                out.extend(self.step(s2, stmt2, on_expr))
+            return out
         except _NeedFork as nf:
             # an IfExp inside an expression: fork on its test and re-run the statement with the chosen arm
             out = []
@@ -559,6 +610,19 @@ class Layout:
 class _NeedFork(Exception):
     def __init__(self, node):
         self.node = node
+
+
+class _NeedCall(Exception):
+    def __init__(self, node):
+        self.node = node
+
+
+class _ValNode(ast.AST):
+    """Synthetic node carrying an already computed abstract value."""
+    _fields = ()
+
+    def __init__(self, value):
+        self.value = value
 
 
 class _SrcNode(ast.AST):
